@@ -982,15 +982,15 @@ impl LangGen {
             forms.push("(define-syntax my-let1 (syntax-rules () ((_ (n v) body) ((lambda (n) body) v))))".to_string());
             forms.push("(define-syntax inc! (syntax-rules () ((_ v) (set! v (+ v 1))) ((_ v n) (set! v (+ v n)))))".to_string());
         }
-        if self.rng.chance(1, 5) {
+        if self.rng.chance(1, 6) {
             // non-tail recursion deep enough to make a fresh VM enlarge its control stack (256 slots, doubling), in a
             // user procedure and in the prelude's map: the result must not depend on what the VM ran before
             self.tag("deep-recursion");
-            let d = *self.rng.pick(&[50usize, 50, 64, 64, 100, 100, 128, 200, 400]);
+            let d = if self.rng.chance(1, 16) { 400 } else { *self.rng.pick(&[50usize, 50, 64, 64, 100, 100, 128, 200]) };
             forms.push("(define (zdeep-count n) (if (= n 0) 0 (+ 1 (zdeep-count (- n 1)))))".to_string());
             forms.push(format!("(zdeep-count {})", d));
             forms.push("(define (zdeep-build n) (if (= n 0) '() (cons n (zdeep-build (- n 1)))))".to_string());
-            forms.push(format!("(apply + (map (lambda (x) (* x 2)) (zdeep-build {})))", d * 2));
+            forms.push(format!("(apply + (map (lambda (x) (* x 2)) (zdeep-build {})))", d + d / 2));
         }
         for i in 0..nforms {
             self.failing = false;
